@@ -343,6 +343,8 @@ def dispatch (args : List String) : Option String :=
       match nonceNew (← parseFq close) (← parseStream stream) with
       | some (n, rest) => pure (join [tV "ok", tS n, tN rest.length])
       | none => pure (tV "none")
+  -- does a layout (order of hashed items, extracted from the recorded bytes) feed every one of the `n` items?
+  | ["layout-covers", l, n] => do pure (tB (layoutCovers (← parseNatList l) (← parseHex n)))
   | ["nonce-ok", close, n] => do pure (tB (nonceOk (← parseFq close) (← parseFq n)))
   | ["revpair-decode", digest, lock, secret, index] => do
       let d ← parseBytes digest
